@@ -410,6 +410,11 @@ fn select_n_nodes(
             .choose_multiple(&mut rng, n)
     };
 
+    #[cfg(feature = "verif")]
+    crate::verif::record_chosen_dcs(
+        selected_dcs.iter().map(|(dc, _)| dc.to_string()).collect(),
+    );
+
     let mut dc_count = selected_dcs.len();
     let mut selected_nodes = Nodes::new();
     for (_, dc_nodes) in selected_dcs.into_iter() {
